@@ -228,6 +228,16 @@ def _cross_process(n_specs: int, hashseeds):
 
         stats = Stats()
         specs = core.collect_examples(_target(False), n_specs, seed_val)
+        # plus larger grids with constrained generators: many visited cells whose bookkeeping (sets, dicts) is where a per-process hash seed could leak into the result
+        for k in range(max(6, n_specs // 6)):
+            sd = core.derive_seed(seed_val, "C04-big", k)
+            n = [10, 12, 9, 14][k % 4]
+            ctor = ["gen_dfs", "gen_prim", "gen_dfs_percolation", "gen_percolation"][k % 4]
+            kw = ({"accessible_cells": [0.7, 0.5, 40, 0.9][(k // 4) % 4]} if ctor in ("gen_dfs", "gen_prim") else {"p": [0.3, 0.5, 0.6][(k // 4) % 3]})
+            if ctor == "gen_dfs_percolation" and k % 8 >= 4:
+                kw["accessible_cells"] = 50
+            specs.append({"name": "big", "grid_n": n, "n_mazes": 6, "ctor": ctor, "kwargs": kw, "seed": int(sd % (2**31)),
+                          **({"endpoint": {"deadend_start": True}} if k % 3 == 0 else {})})
         idx = list(range(len(specs)))
         outs = {}
         for j, hs in enumerate(hashseeds):
